@@ -535,6 +535,9 @@ def run_pool_history(chk, hist, count=True):
             status = "ok"
         except AssertionError:
             res, status = None, "rej"
+        except Exception as e:       # an exception of the real code on a history operation is a finding, not a harness crash
+            return None, ("violation", "operation-raises",
+                          f"operation #{step} of the history raised {type(e).__name__}: {str(e)[:150]}", where)
         if status == "ok" and not admissible:
             return res, ("violation", "accepts-inadmissible-program",
                          f"operation #{step} of the history was accepted although its range does not fit", where)
@@ -548,6 +551,19 @@ def run_pool_history(chk, hist, count=True):
         return res, None
 
     evaluated = set()
+    taint = []               # pool index -> features inherited through copy() ('alias', 'empty')
+
+    def reasons(n):
+        out = set(taint[n])
+        if len(handles[n]) > 1:
+            out.add("alias")
+        for _, it in pool[n][1]:
+            if it[0] == "ref":
+                if len(it) > 2:
+                    out.add("empty")
+                out |= reasons(it[1])
+        return out
+
     for step, op in enumerate(hist["ops"]):
         k = op["op"]
         if k == "new":
@@ -559,6 +575,7 @@ def run_pool_history(chk, hist, count=True):
                 idx[op["id"]] = len(pool)
                 pool.append([op["m"], []])
                 handles.append([obj])
+                taint.append(set())
             continue
         if k == "set":
             env += 1
@@ -591,6 +608,7 @@ def run_pool_history(chk, hist, count=True):
             idx[op["id"]] = len(pool)
             pool.append([m_i, [(off, ("tree", sub)) for off, sub in resolve(i, vals)[2]]])
             handles.append([obj])
+            taint.append(reasons(i))
             if count:
                 chk.branch("hist-copy")
         elif k in ("leaf", "sub"):
@@ -618,6 +636,8 @@ def run_pool_history(chk, hist, count=True):
                 body = {("merge" if merge_like else "nest"): i, "j": j, "off": off}
                 if merge_like and pool[j][1]:
                     new_items = [(off + o, it) for o, it in pool[j][1]]
+                elif merge_like:
+                    new_items = [(off, ("ref", j, "merged while empty"))]
                 else:
                     new_items = [(off, ("ref", j))]
                 if count:
@@ -677,7 +697,12 @@ def run_pool_history(chk, hist, count=True):
                 if i in evaluated and any(it[0] == "ref" for _, it in pool[i][1]):
                     chk.branch("hist-reevaluated-after-growth")
             evaluated.add(i)
-            if u.shape != spec_u.shape or not np.allclose(u, spec_u, rtol=core.TOL, atol=core.TOL):
+            if not np.allclose(u, u2, rtol=core.TOL, atol=core.TOL):
+                return ("violation", "matrix-changes-on-reevaluation",
+                        f"after {step} operations compute_unitary() of pool entry {op['i']} called twice gives two matrices",
+                        where)
+            bad_u = u.shape != spec_u.shape or not np.allclose(u, spec_u, rtol=core.TOL, atol=core.TOL)
+            if bad_u or flat != spec_flat:
                 d = float(np.max(np.abs(u - spec_u))) if u.shape == spec_u.shape else float("nan")
                 # the property read literally on the object itself: product of the matrices its own leaves report now,
                 # on the ranges its own iteration reports now
@@ -690,30 +715,36 @@ def run_pool_history(chk, hist, count=True):
                     return ("violation", "matrix-not-product-after-history",
                             f"after {step} operations compute_unitary() of pool entry {op['i']} differs from the ordered "
                             f"product of its current parts (under the current parameter values) by {d:.3g}", where)
+
+                def reaches(n, pred):
+                    return pred(n) or any(it[0] == "ref" and reaches(it[1], pred) for _, it in pool[n][1])
+                why = reasons(i)
+                if "alias" in why:
+                    # `a // x` / `a @ x` on a Circuit are documented to build a new circuit; that the left operand shares
+                    # the component list with the result is how the code is written (and modelled), not the property
+                    return ("broken", "handle-aliasing-differs-from-model",
+                            f"after {step} operations pool entry {op['i']} (an operand or result of `//`/`@`) is the product "
+                            f"of its own parts {flat}, but the model (result and left operand share one component list) "
+                            f"expects parts at {spec_flat}", where)
+                if "empty" in why:
+                    return ("broken", "merged-empty-circuit-differs-from-model",
+                            f"after {step} operations pool entry {op['i']}, into which a then empty circuit was merged, is the "
+                            f"product of its own parts {flat}; the model (an empty circuit is kept by reference) expects "
+                            f"{spec_flat}", where)
                 if flat != spec_flat:
                     return ("violation", "iteration-ranges-after-history",
-                            f"after {step} operations pool entry {op['i']} holds parts on {flat}; parts were attached at "
-                            f"{spec_flat} (its matrix differs from the product of the attached parts by {d:.3g})", where)
-                def has_frozen(n):
-                    return any((it[0] == "tree" and (it[1][0] == "C" or it[1][2] != "Barrier"))
-                               or (it[0] == "ref" and has_frozen(it[1])) for _, it in pool[n][1])
-                if env > 0 and has_frozen(i):
+                            f"after {step} operations iteration of pool entry {op['i']} reports {flat}, parts were attached "
+                            f"at {spec_flat}" + (f" (matrix differs by {d:.3g})" if bad_u else ""), where)
+                if env > 0 and reaches(i, lambda n: any(it[0] == "tree" and (it[1][0] == "C" or it[1][2] != "Barrier")
+                                                        for _, it in pool[n][1])):
                     return ("broken", "copy-binding-differs-from-model",
-                            f"after {step} operations pool entry {op['i']} (made by copy()) is the product of its own leaves, "
-                            f"but those do not have the values the original had when it was copied (the model freezes a "
-                            f"copy; differs by {d:.3g})", where)
+                            f"after {step} operations pool entry {op['i']} (holding parts made by copy()) is the product of "
+                            f"its own leaves, but those do not have the values the original had when it was copied (the model "
+                            f"freezes a copy; differs by {d:.3g})", where)
                 return ("violation", "matrix-ignores-parameter-value",
                         f"after {step} operations compute_unitary() of pool entry {op['i']} is not the ordered product of "
                         f"the attached parts under the current parameter values (differs by {d:.3g}): a part lost or kept "
                         f"a binding it should not", where)
-            if not np.allclose(u, u2, rtol=core.TOL, atol=core.TOL):
-                return ("violation", "matrix-changes-on-reevaluation",
-                        f"after {step} operations compute_unitary() of pool entry {op['i']} called twice gives two matrices",
-                        where)
-            if flat != spec_flat:
-                return ("violation", "iteration-ranges-after-history",
-                        f"after {step} operations iteration of pool entry {op['i']} reports {flat}, parts are at {spec_flat}",
-                        where)
             if not np.allclose(u @ u.conj().T, np.eye(m_i), atol=1e-8):
                 return ("violation", "not-unitary", f"after {step} operations compute_unitary() is not unitary", where)
             if op.get("sym"):
